@@ -40,6 +40,7 @@ import lxml.etree as LX
 from .. import core, tla
 
 LEVEL = 'model_checking'
+PROCS = max(1, int(os.environ.get('VERIF_PROCS', '16')))     # worker processes (TLC workers and replay pool)
 XMLNS = 'http://www.w3.org/XML/1998/namespace'
 fs = frozenset
 E = fs()
@@ -797,7 +798,7 @@ def run_traces(chk: core.Check) -> None:
     for t in range(1, par['count'] + 1):
         cfg, tree = random_input(rnd, par['lo'], par['hi'])
         jobs.append((t, cfg, tree))
-    recs = core.pool_map(trace_worker, jobs, procs=8)
+    recs = core.pool_map(trace_worker, jobs, procs=min(8, PROCS))
     # binding self-test: two corrupted copies of real recordings must be rejected by TLC
     good = [r for r in recs if 'error' not in r and len(r['events']) > 6]
     corrupt = []
@@ -822,7 +823,7 @@ def run_traces(chk: core.Check) -> None:
                                    DeclOpts={E}, Variants={"etree"}, RootArgs={"elem"}, Fragments={"none"}, NsArgs={E},
                                    MaxSibs=0, Emit=False),
                               spec='TSpec', invariants=['TypeOK', 'PopSafe', 'GapSafe', 'Refinement'])
-        r = tla.require_ok(tla.run_tlc('TraceTreeBuild', cfgtxt, wd, env={'C02_TRACES': path}, workers=8),
+        r = tla.require_ok(tla.run_tlc('TraceTreeBuild', cfgtxt, wd, env={'C02_TRACES': path}, workers=min(8, PROCS)),
                            f'TraceTreeBuild batch {bi}')
         chk.model(f'TraceTreeBuild/batch{bi}', r)
         chk.add('transitions', r.generated)
@@ -874,20 +875,27 @@ def run_traces(chk: core.Check) -> None:
 
 # ---------------------------------------------------------------------------------------
 
+TB_ACTIONS = ['Start', 'PreSib', 'MkRoot', 'RootText', 'NextChild', 'ChildText', 'Descend', 'ChildTail', 'Exhausted',
+              'Pop', 'Finish', 'PostSib', 'Report']
+
+
 def run_treebuild(chk: core.Check) -> None:
     n_oracle = 0
+    fired = {a: 0 for a in TB_ACTIONS}
     for name, consts in TB_CONFIGS[chk.tier]:
         wd = os.path.join(chk.scratch, 'tb_' + name)
         c = dict(consts, Emit=True)
         cfg = tla.cfg_text(c, spec='Spec', invariants=['TypeOK', 'PopSafe', 'GapSafe', 'Refinement', 'DefOK'])
-        r = tla.require_ok(tla.run_tlc('TreeBuild', cfg, wd, workers=12), f'TreeBuild/{name}')
+        r = tla.require_ok(tla.run_tlc('TreeBuild', cfg, wd, workers=min(12, PROCS), coverage=True), f'TreeBuild/{name}')
         chk.model(f'TreeBuild/{name}', r)
+        for a in TB_ACTIONS:
+            fired[a] += r.coverage.get(a, 0)
         chk.add('transitions', r.generated)
         t0 = time.time()
         lines = [ln for ln in r.output.splitlines() if ln.startswith('"<<\\"c02\\"')]
         if not lines:
             raise tla.MachineryError(f'TreeBuild/{name}: no terminal vector printed (vacuous)')
-        results = core.pool_map(tree_worker, core.chunked(lines, 64))
+        results = core.pool_map(tree_worker, core.chunked(lines, 64), procs=PROCS)
         nvec = 0
         for stats, fails, notes, odis, n_odis, samples in results:
             nvec += stats['vectors']
@@ -909,6 +917,10 @@ def run_treebuild(chk: core.Check) -> None:
             raise tla.MachineryError(f'TreeBuild/{name}: {len(lines)} vectors printed, {nvec} parsed')
         print(f'  TreeBuild/{name}: states={r.distinct} behaviours={nvec} tlc={r.wall_s:.1f}s replay={time.time()-t0:.1f}s',
               flush=True)
+    dead = [a for a, c in fired.items() if c == 0]
+    if dead:
+        raise tla.MachineryError(f'TreeBuild actions never fired in any configuration (vacuous): {dead}')
+    chk.coverage['treebuild_action_firings'] = fired
     if n_oracle:
         raise tla.MachineryError(f'specification and libxml2 disagree on {n_oracle} points, e.g. '
                                  f'{chk.coverage["oracle_disagreements"][:2]}')
@@ -930,7 +942,7 @@ def run_nodeops(chk: core.Check) -> None:
         dot = os.path.join(wd, 'graph.dot')
         os.makedirs(wd, exist_ok=True)
         cfg = tla.cfg_text(consts, spec='Spec', invariants=['TypeOK', 'Laws'])
-        r = tla.require_ok(tla.run_tlc('NodeOps', cfg, wd, dump_dot=dot, workers=12), f'NodeOps/{name}')
+        r = tla.require_ok(tla.run_tlc('NodeOps', cfg, wd, dump_dot=dot, workers=min(12, PROCS)), f'NodeOps/{name}')
         chk.model(f'NodeOps/{name}', r)
         t0 = time.time()
         g = tla.load_dot(dot)
@@ -952,9 +964,14 @@ def run_nodeops(chk: core.Check) -> None:
         for s, d, a, args in g.edges:
             trees[tree_of[s]][6].setdefault(s, []).append((d, a, args))
         n_edges = len(g.edges)
+        seen_ops = {(a, args[0] if args else None) for _, _, a, args in g.edges}
+        want = {('SetOp', o) for o in ('union', 'intersect', 'except', 'rexcept')} | \
+               {('Fn', f) for f in ('innermost', 'outermost', 'root')} | {('CmpAny', None)}
+        if want - seen_ops:
+            raise tla.MachineryError(f'NodeOps/{name}: operators never applied (vacuous): {sorted(want - seen_ops, key=str)}')
         jobs = [tuple(v) for v in trees.values()]
         del g
-        results = core.pool_map(ops_tree_worker, jobs)
+        results = core.pool_map(ops_tree_worker, jobs, procs=PROCS)
         for stats, fails, samples in results:
             chk.add('transitions', stats['transitions'])
             chk.add('evaluations', stats['evaluations'])
